@@ -256,6 +256,10 @@ class Ref:
             else:
                 best = -1
                 val = None
+                # initial data of an event connection: one value, due at time 0, delivered once like every other event
+                if c.initial is not SENT and 'init' not in delivered:
+                    delivered.add('init')
+                    best, val = -0.5, c.initial       # superseded by any produced value that is due at the same step
                 for (to, v, seq, st) in c.produced:
                     if seq in delivered:
                         continue
@@ -263,7 +267,7 @@ class Ref:
                         delivered.add(seq)
                         if seq > best:
                             best, val = seq, v
-                if best >= 0:
+                if best > -1:
                     exp[slot] = val
         for slot in skip:
             exp.pop(slot, None)
